@@ -8,6 +8,89 @@ from harness.c12 import C12
 from vlib import common as C
 
 
+ABIS = [("X64", "ELF"), ("X64", "PE"), ("IA32", "PE"), ("ARM64", "ELF"), ("MIPS32", "ELF")]
+ISA_NUM = {"X64": 0, "IA32": 1, "ARM64": 2, "MIPS32": 3}
+FMT_NUM = {"ELF": 0, "PE": 1}
+LABELS = [".Lq", "Lq", "$Lq", "$q", "q", "_q", ".q", "L.q", ".L", "L", ".Lq_1", "$.q"]
+NOP = {"X64": "nop", "IA32": "nop", "ARM64": "nop", "MIPS32": "nop"}
+BRANCH = {"X64": "jmp {l}", "IA32": "jmp {l}", "ARM64": "b {l}", "MIPS32": "b {l}\nnop"}
+CODE = {"X64": b"\x90\x90\xc3", "IA32": b"\x90\x90\xc3", "ARM64": b"\x1f\x20\x03\xd5" * 2 + b"\xc0\x03\x5f\xd6", "MIPS32": bytes(8) + b"\x03\xe0\x00\x08" + bytes(4)}
+
+
+def abi_module(isa, fmt):
+    import sys
+    sys.path.insert(0, "/repo/tests")
+    from gtirb_test_helpers import add_code_block, add_symbol, add_text_section, create_test_module
+    ir, m = create_test_module(getattr(gtirb.Module.FileFormat, fmt), getattr(gtirb.Module.ISA, isa))
+    if isa == "MIPS32":
+        m.byte_order = gtirb.Module.ByteOrder.Big
+    _, bi = add_text_section(m, address=0x1000)
+    b = add_code_block(bi, CODE[isa])
+    add_symbol(m, "f", b)
+    return m, b
+
+
+def temp_label_case(isa, fmt, name, label, suffix):
+    """(model line, what the implementation says) -- None when the target's assembler does not take `label` as a label at all"""
+    import gtirb_rewriting.assembler.assembler as A
+    from gtirb_rewriting.abi import ABI
+    from gtirb_rewriting.patch import InsertionContext
+    m, b = abi_module(isa, fmt)
+    line = f"tmplabel {ISA_NUM[isa]} {FMT_NUM[fmt]} {name} {label} {suffix}"
+    prefix = ABI.get(m).temporary_label_prefix()
+    made = InsertionContext(m, None, b, 0).temporary_label(name)
+    try:
+        a = A.Assembler(m, temp_symbol_suffix=suffix)
+        a.assemble(f"{label}:\n{NOP[isa]}\n", A.X86Syntax.ATT)
+        res = a.finalize()
+    except Exception:    # noqa
+        return line, None
+    names = [s.name for s in res.symbols]
+    if len(names) != 1:
+        return line, None
+    return line, f"supported 1 | prefix {prefix} | label {made} | temp {1 if names[0] != label else 0} | named {names[0]}"
+
+
+def same_patch_twice(isa, fmt, rnd):
+    """the same patch -- its label made by InsertionContext.temporary_label -- inserted 2-3 times in one context: no clash, and every
+    copy branches to its own label.  Returns a violation text or None."""
+    import gtirb_rewriting
+    from gtirb_rewriting import Patch, patch_constraints
+    m, b = abi_module(isa, fmt)
+    base = rnd.choice(["x", "loop", "a0", "t1", "L", "_end", "x_1"])
+
+    @patch_constraints()
+    def p(ictx):
+        lab = ictx.temporary_label(base)
+        return f"{lab}:\n{NOP[isa]}\n" + BRANCH[isa].format(l=lab) + "\n"
+    patch = Patch.from_function(p)
+    ctx = gtirb_rewriting.RewritingContext(m, [])
+    step = 1 if isa in ("X64", "IA32") else 4
+    offs = rnd.sample([0, step, 2 * step], rnd.randint(2, 3))
+    for o in offs:
+        ctx.insert_at(b, o, patch)
+    try:
+        ctx.apply()
+    except Exception as e:    # noqa
+        return f"{isa} {fmt}: inserting one patch with the label temporary_label({base!r}) at {len(offs)} places raises {type(e).__name__}: {str(e)[:80]}"
+    names = [s.name for s in m.symbols]
+    if len(names) != len(set(names)):
+        return f"{isa} {fmt}: two symbols with one name after inserting one patch {len(offs)} times: {sorted(names)}"
+    labs = [s for s in m.symbols if s.name != "f"]
+    if len(labs) != len(offs):
+        return f"{isa} {fmt}: {len(offs)} copies of the patch left {len(labs)} label symbols: {sorted(names)}"
+    for bi in m.byte_intervals:
+        for off, e in bi.symbolic_expressions.items():
+            for sy in e.symbols:
+                # the branch of a copy sits directly behind its own label's nop: the label it names must be the closest one before it
+                addr = bi.address + off
+                before = [s for s in labs if s.referent is not None and s.referent.address is not None and s.referent.address <= addr]
+                own = max(before, key=lambda s: s.referent.address) if before else None
+                if sy in labs and sy is not own:
+                    return f"{isa} {fmt}: a copy of the patch branches to {sy.name}, the label of another copy"
+    return None
+
+
 class C13(C12):
     id = "C13"
     prop_file = "Properties/C13.v"
@@ -23,6 +106,22 @@ class C13(C12):
             undef = rnd.random() < 0.5
             out.append((asmgen.gen_text(rnd, undef, chunks=2), rnd.random() < 0.5, undef, False))
         return out
+
+    def correspondence(self, tier, ctx):
+        r = super().correspondence(tier, ctx)
+        # Asm/TempPrefix.v against every ABI: the prefix handed out, and which labels the assembler suffixes
+        lines, outs = [], []
+        for (isa, fmt) in ABIS:
+            for label in LABELS:
+                line, out = temp_label_case(isa, fmt, "x1", label, "_9")
+                if out is not None:
+                    lines.append(line)
+                    outs.append(out)
+        got = C.run_driver("asm", lines)
+        r["disagreements"] = (r["disagreements"] + [{"case": l, "implementation": o, "model": g} for l, o, g in zip(lines, outs, got) if o != g])[:20]
+        r["evaluations"] += len(lines)
+        r["dist"]["temporary_label_cases"] = len(lines)
+        return r
 
     def oracle(self, tier, ctx, boosted):
         import gtirb_rewriting.assembler.assembler as A
@@ -103,6 +202,13 @@ class C13(C12):
             for w in funcins.check_names(r2)[:1]:
                 bads.append(dict(what="after a rewrite that inserts the same patch several times (as functions and at ordinary places): " + w,
                                  input={"funcins_seed": sd, "functions": [t for _, _, t in r2["inserted"]]}, finding=None))
+        rnd3 = C.rng("c13-abis" + ("-boost" if boosted else ""))
+        for _ in range({"quick": 12, "thorough": 60}["thorough" if boosted else tier]):
+            for isa, fmt in ABIS:
+                extra += 1
+                w = same_patch_twice(isa, fmt, rnd3)
+                if w:
+                    bads.append(dict(what=w, input={"abi": [isa, fmt]}, finding=None))
         bads = [b for b in bads if b["finding"] is None][:10] + [b for b in bads if b["finding"]][:2]
         return dict(evaluations=len(pairs) + extra, violations=bads, samples=[{"oracle": "symbol identity and uniqueness; chunked == whole; two copies with different suffixes"}])
 
